@@ -11,6 +11,15 @@ func C04_AppendSample[T signal.SignalTypes]() {
 	base := allocAny[T](C, K, "base")
 	s, e := window("w", K)
 	w := base.Slice(s, e)
+	// optionally a window of that window (the middle view then has spare capacity behind it)
+	mid := w
+	if vf.Pick("nested", 0, 1) == 1 {
+		e2 := vf.Pick("w.e2", 0, e-s)
+		mid = w
+		w = mid.Slice(0, e2)
+		e = s + e2
+	}
+	midLen := mid.Len()
 	c0 := w.Cap()
 	calls := w.Cap() - w.Len() + 2
 	maxCalls := vf.Param("MaxCalls", 5)
@@ -46,5 +55,32 @@ func C04_AppendSample[T signal.SignalTypes]() {
 			}
 		}
 		vf.Assert("base-shape", base.Len() == C*K && base.Cap() == C*K)
+		if mid != w {
+			vf.Assert("other-views-keep-their-length", mid.Len() == midLen)
+		}
+	}
+}
+
+// C04_AfterGrowth: single-sample appends on a buffer whose storage came out of a growing Append.
+func C04_AfterGrowth[T signal.SignalTypes]() {
+	C := vf.Pick("C", 1, vf.Param("MaxC", 3))
+	b := signal.Alloc[T](signal.Allocator{Channels: C, Length: 0, Capacity: vf.Pick("K0", 0, 1)})
+	b.Append(allocAny[T](C, vf.Pick("k", 1, 5), "src"))
+	c0 := b.Cap()
+	vf.Assert("capacity-whole-frames", c0%C == 0 && b.Capacity()*C == c0)
+	for n := 0; n < C*2+2; n++ {
+		l0 := b.Len()
+		v := vf.Any[T]("v")
+		b.AppendSample(v)
+		vf.Assert("cap-constant", b.Cap() == c0)
+		vf.Assert("len-within-cap", b.Len() <= b.Cap() && b.Length() <= b.Capacity())
+		if l0 < c0 {
+			vf.Cover("not-full")
+			vf.Assert("len+1", b.Len() == l0+1)
+			vf.Assert("stored-at-len", vf.SameBits(b.Sample(l0), v))
+		} else {
+			vf.Cover("full")
+			vf.Assert("full-noop-len", b.Len() == l0)
+		}
 	}
 }
